@@ -58,6 +58,15 @@ CLAIMS = {
  "C14": ("interprocedural backward taint (data-dependence through SSA operands, memory of local objects, parameters → call sites, own callees' returns) from every browser-bound sink to the declared secret sources, with the S256 challenge hash as the only sanitiser",
          "Decides that no denial/redirect body, header, status message or server deny message data-depends on the client secret, a PKCE verifier, an ID/access/refresh token, an IdP response body or an error value, and that the OK writer's headers carry no secret beyond the ID and access token. Over-approximate (any tainted operand taints the result); encodings inside libraries and log output are not examined.",
          "go/ssa model; session id, state, nonce and S256 challenge are by definition not secrets here"),
+ "C18": ("existence rule over three namespacing mechanisms (per-filter store creation, per-filter discriminator in store keys, metadata comparison) using branch facts and key provenance; constructor-argument provenance for the shared store's timeouts; receiver provenance of every configuration getter in the handler",
+         "Decides whether any per-filter value at all reaches the session lookup — a necessary condition of isolation — and whether a store serving several filters takes one filter's timeouts. Both fail on the tree; both were reproduced against the real code (cross-filter session replay by renaming the cookie; shared timeouts) and are listed as known findings keyed by construct, so a new violation of either rule is still reported. Per-filter use of cookie name, endpoints and credentials inside the handler is decided and holds.",
+         "go/ssa model; configuration loading guarantees at most one OIDC filter per chain"),
+ "C19": ("branch-fact guard chain at the client-secret write, provenance of the written objects and value, who-may-write scan for the index, call-site rule for the loader, namespace refusal facts, request-time read and no-cached-copy rules",
+         "Decides that Reconcile writes the Secret's current non-empty value only for an indexed, fetched, non-deleting Secret and only into the configurations indexed under its name; that the index is built once at start-up from pointers (so rotation survives the oneof flip); that cross-namespace references are refused and the refusal propagates; and that token requests read the secret from the configuration when they are built. Event orderings and visibility to running checks (C16 finding) are not decided.",
+         "go/ssa model; controller-runtime delivers Reconcile requests as documented"),
+ "C20": ("single-writer and branch-fact rules for InsecureSkipVerify, provenance rule for every RootCAs store (system pool + successful append), assumed-atom path feasibility (non-empty CA ⇒ RootCAs set; cancel before re-register), pointer-sharing rule for the pooled config, interface/struct table agreement for the pool key, watcher life-cycle shape rules",
+         "Decides the structural part of `TLS trust follows the configuration`: skip-verify only without any CA, trust store = system roots + configured CA or nothing installed, the pooled *tls.Config is shared (not cloned) with clients and updated in place under its id by the reload callback, the pool key covers every TLS setting, superseded watchers are cancelled, no watcher without interval, callback only on change, BoolStrValue semantics. Handshake outcomes and timing are not decided; the unsynchronised RootCAs write is C16's known finding; the non-atomic get-or-create is recorded as an observation only.",
+         "go/ssa model; crypto/x509, crypto/tls and net/http contracts"),
 }
 
 NOT_YET = "check under construction in this round; see DESIGN.md section 4 for the planned static rules"
